@@ -147,6 +147,29 @@ func init() {
 			return preflightReq("https://a.example.com", "GET", v, false)
 		}})
 	}
+	// Origins are capped at a few hundred bytes: label-count families with fine-grained small sizes
+	for _, lab := range []string{"a.", "xn--9ca.", "xn--bcher-kva.", "1.", "a-b.", "x_y.", "abcdefghij."} {
+		lab := lab
+		c18Reqs = append(c18Reqs, struct {
+			name     string
+			elements bool
+			mk       func(n int) Req
+		}{fmt.Sprintf("actual GET, allowed Origin with n labels %q (fine sizes)", lab), true, func(n int) Req {
+			return actualReq("GET", "https://"+strings.Repeat(lab, n)+"example.com")
+		}}, struct {
+			name     string
+			elements bool
+			mk       func(n int) Req
+		}{fmt.Sprintf("preflight, allowed Origin with n labels %q (fine sizes)", lab), true, func(n int) Req {
+			return preflightReq("https://"+strings.Repeat(lab, n)+"example.com", "PUT", []string{"x-listed-1"}, false)
+		}}, struct {
+			name     string
+			elements bool
+			mk       func(n int) Req
+		}{fmt.Sprintf("actual GET, refused Origin with n labels %q (fine sizes)", lab), true, func(n int) Req {
+			return actualReq("GET", "https://"+strings.Repeat(lab, n)+"other.org")
+		}})
+	}
 	for _, b := range []string{"M", "m", "\xff", " "} {
 		b := b
 		c18Reqs = append(c18Reqs, struct {
@@ -173,13 +196,13 @@ func init() {
 
 const (
 	c18Ceiling = 10 // absolute bound on allocations per request (today: 0-2)
-	c18Slack   = 2  // tolerated difference between small and large sizes
+	c18Slack   = 3  // tolerated difference between the smallest sizes and any other size (different paths differ by small constants)
 )
 
 func TestVerif_C18(t *testing.T) {
 	r := newRun(t, "C18")
-	r.Rule("configuration kinds {allow-all, discrete, `*` headers anonymous, anonymous+authorization, credentialed, PNA, PNA no-cors} x debug off/on x 49 request kinds, each with one attacker-sized field (Origin bytes / labels / field lines, ACRM bytes, ACRH bytes / elements / empty elements / OWS run / field lines; list elements and bytes drawn from lower-case, mixed-case, upper-case, non-token, non-ASCII, padded and long templates) x sizes 1..10^5 bytes and 1..10^4 elements (quick) or 14 sizes up to 10^6 bytes and 11 up to 10^5 elements (thorough). " +
-		"evaluation = one AllocsPerRun measurement (runs+1 ServeHTTP calls) with a reusable minimal writer and a no-op handler on the plain build; oracle: allocations <= " + fmt.Sprint(c18Ceiling) + " at every size and allocations at any size <= (maximum over sizes <= 100) + " + fmt.Sprint(c18Slack) + ". non-trivial = measurement at size >= 100, distinct by construction")
+	r.Rule("configuration kinds {allow-all, discrete, `*` headers anonymous, anonymous+authorization, credentialed, PNA, PNA no-cors} x debug off/on x 70 request kinds (incl. label-count families of the Origin - plain, A-label, numeric, hyphen, underscore - at 12 fine-grained sizes below the Origin length cap), each with one attacker-sized field (Origin bytes / labels / field lines, ACRM bytes, ACRH bytes / elements / empty elements / OWS run / field lines; list elements and bytes drawn from lower-case, mixed-case, upper-case, non-token, non-ASCII, padded and long templates) x sizes 1..10^5 bytes and 1..10^4 elements (quick) or 14 sizes up to 10^6 bytes and 11 up to 10^5 elements (thorough). " +
+		"evaluation = one AllocsPerRun measurement (runs+1 ServeHTTP calls) with a reusable minimal writer and a no-op handler on the plain build; oracle: allocations <= " + fmt.Sprint(c18Ceiling) + " at every size and allocations at any size <= (maximum over the two smallest sizes) + " + fmt.Sprint(c18Slack) + ". non-trivial = measurement at size >= 100, distinct by construction")
 	r.Assume("the harness's writer, handler and pre-built request allocate nothing per call; GOMAXPROCS(1) during the measurement (testing.AllocsPerRun)")
 	if r.Variant != "plain" {
 		r.Assume("NOTE: measured on a non-plain build variant; counts include instrumentation")
@@ -211,6 +234,9 @@ func TestVerif_C18(t *testing.T) {
 				if rk.elements {
 					sizes = elemSizes
 				}
+				if strings.Contains(rk.name, "(fine sizes)") {
+					sizes = []int{1, 2, 3, 5, 8, 12, 16, 20, 24, 28, 40, 60}
+				}
 				smallMax := -1.0
 				allocs := make([]float64, len(sizes))
 				for si, n := range sizes {
@@ -230,7 +256,7 @@ func TestVerif_C18(t *testing.T) {
 					if n >= 100 {
 						l.nontrivN++
 					}
-					if n <= 100 && a > smallMax {
+					if si < 2 && a > smallMax {
 						smallMax = a
 					}
 					dist[fmt.Sprintf("allocs_per_request_%02d", int(a))]++
@@ -242,7 +268,7 @@ func TestVerif_C18(t *testing.T) {
 						break
 					}
 					if a > smallMax+c18Slack {
-						r.Violate("allocs-grow-with-size", "allocs", fmt.Sprintf("%s, debug=%v, %s: %.0f allocations per request at size %d vs at most %.0f at sizes <= 100; by size %v: %v", cc.name, dbg, rk.name, a, n, smallMax, sizes, allocs), c18Case{cc.name, dbg, rk.name, n})
+						r.Violate("allocs-grow-with-size", "allocs", fmt.Sprintf("%s, debug=%v, %s: %.0f allocations per request at size %d vs at most %.0f at the two smallest sizes; by size %v: %v", cc.name, dbg, rk.name, a, n, smallMax, sizes, allocs), c18Case{cc.name, dbg, rk.name, n})
 						break
 					}
 				}
